@@ -282,3 +282,108 @@ func suiteServeX(e *emitter, depth int) {
 		}
 	}
 }
+
+// historyx: every sequence of up to `depth` operations from {SetDebug(true), SetDebug(false), Reconfigure(nil),
+// Reconfigure(A), Reconfigure(B), Reconfigure(invalid), Reconfigure(Config())}, from the zero value and from
+// NewMiddleware(A), with the same four observations after every operation: Config(), a preflight that fails at the
+// method step (shows the debug mode), a preflight that succeeds under A, an actual request.
+func suiteHistoryX(e *emitter, depth int) {
+	cfgA := cors.Config{Origins: []string{"https://a.com"}, Credentialed: true, Methods: []string{"PUT"}, RequestHeaders: []string{"X-A"}, ResponseHeaders: []string{"X-B"}, MaxAgeInSeconds: 30}
+	cfgB := cors.Config{Origins: []string{"*"}, Methods: []string{"*"}, RequestHeaders: []string{"*", "Authorization"}}
+	cfgI := cors.Config{Origins: []string{"https://a.com/", "*"}, Credentialed: true, Methods: []string{"CONNECT"}, MaxAgeInSeconds: -5}
+	probes := []request{
+		{method: "OPTIONS", hdrs: []kv{{"Origin", []string{"https://a.com"}}, {"Access-Control-Request-Method", []string{"NOBODY"}}}},
+		{method: "OPTIONS", hdrs: []kv{{"Origin", []string{"https://a.com"}}, {"Access-Control-Request-Method", []string{"PUT"}}, {"Access-Control-Request-Headers", []string{"x-a"}}}},
+		{method: "GET", hdrs: []kv{{"Origin", []string{"https://a.com"}}}},
+	}
+	ops := []string{"D1", "D0", "RN", "RA", "RB", "RI", "RC"}
+	var run func(start int, seq []string)
+	run = func(start int, seq []string) {
+		id := "x" + strconv.Itoa(start)
+		var m *cors.Middleware
+		var shadow *decider
+		observe := func() {
+			e.emit("h.config\t"+id, guard(func() string { return encConfig(m.Config()) }))
+			for _, rq := range probes {
+				dec := shadow.decide(rq)
+				e.emit("h.serve\t"+id+"\t"+encBytes(rq.method)+"\t"+encKVs(rq.hdrs)+"\t"+encKVs(rq.pre)+"\t"+dec, runRequest(m, rq)+"\t||\t"+dec)
+			}
+		}
+		reconf := func(c *cors.Config, onOK func()) {
+			if c == nil {
+				e.emit("h.reconf\t"+id+"\tnil\t~", guard(func() string {
+					if err := m.Reconfigure(nil); err != nil {
+						return "err"
+					}
+					shadow = nil
+					return "ok"
+				}))
+				return
+			}
+			cc := *c
+			cc.Origins, cc.Methods, cc.RequestHeaders, cc.ResponseHeaders = append([]string(nil), c.Origins...), append([]string(nil), c.Methods...), append([]string(nil), c.RequestHeaders...), append([]string(nil), c.ResponseHeaders...)
+			e.emit("h.reconf\t"+id+"\t"+encConfig(&cc)+"\t"+oracleFor(cc.Origins), guard(func() string {
+				if err := m.Reconfigure(&cc); err != nil {
+					return errCount(err)
+				}
+				onOK()
+				return "ok"
+			}))
+		}
+		if start == 0 {
+			m = new(cors.Middleware)
+			registerLongLived(m)
+			e.emit("h.zero\t"+id, "ok")
+		} else {
+			c := cfgA
+			line := "h.new\t" + id + "\t" + encConfig(&c) + "\t" + oracleFor(c.Origins)
+			mm, err := cors.NewMiddleware(c)
+			if err != nil {
+				e.emit(line, errCount(err))
+				return
+			}
+			m = mm
+			registerLongLived(m)
+			shadow = newDecider(&c)
+			e.emit(line, "ok")
+		}
+		observe()
+		for _, op := range seq {
+			switch op {
+			case "D1", "D0":
+				m.SetDebug(op == "D1")
+				e.emit("h.debug\t"+id+"\t"+encBool(op == "D1"), "ok")
+			case "RN":
+				reconf(nil, nil)
+			case "RA":
+				reconf(&cfgA, func() { shadow = newDecider(&cfgA) })
+			case "RB":
+				reconf(&cfgB, func() { shadow = newDecider(&cfgB) })
+			case "RI":
+				reconf(&cfgI, func() {})
+			case "RC":
+				if cfg := m.Config(); cfg == nil {
+					reconf(nil, nil)
+				} else {
+					reconf(cfg, func() {})
+				}
+			}
+			observe()
+		}
+	}
+	var rec func(seq []string, d int)
+	rec = func(seq []string, d int) {
+		if len(seq) > 0 {
+			for start := 0; start < 2; start++ {
+				run(start, seq)
+			}
+		}
+		if d == 0 {
+			return
+		}
+		for _, op := range ops {
+			rec(append(seq[:len(seq):len(seq)], op), d-1)
+		}
+	}
+	rec(nil, depth)
+}
